@@ -12,34 +12,6 @@
 (***************************************************************************)
 EXTENDS Shapes, TLC
 
-RECURSIVE AllStmts(_)
-RECURSIVE StmtsOfExpr(_)
-SeqStmts(ss) == UNION {AllStmts(ss[i]) : i \in 1..Len(ss)}
-
-\* statements nested in statement-expressions of an expression
-StmtsOfExpr(e) == UNION {SeqStmts(n.body) : n \in {m \in ExprNodes(e) : m.k = "stmtexpr"}}
-
-ExprsOfStmt(s) ==
-    LET k == s.k IN
-    CASE k = "decl" -> IF s.init.k = "none" THEN {} ELSE {s.init}
-      [] k = "expr" -> {s.e}
-      [] k = "if" -> {s.c}
-      [] k = "for" -> (IF s.c.k = "none" THEN {} ELSE {s.c}) \cup (IF s.step.k = "none" THEN {} ELSE {s.step})
-      [] k \in {"while", "do"} -> {s.c}
-      [] k = "return" -> IF s.e.k = "none" THEN {} ELSE {s.e}
-      [] k = "store" -> {s.a, s.v}
-      [] k = "jump" -> {s.a}
-      [] OTHER -> {}
-
-AllStmts(s) ==
-    LET k == s.k
-        sub == CASE k = "block" -> SeqStmts(s.b)
-                 [] k = "if" -> SeqStmts(s.t) \cup SeqStmts(s.e)
-                 [] k = "for" -> (IF s.init.k = "none" THEN {} ELSE AllStmts(s.init)) \cup SeqStmts(s.body)
-                 [] k \in {"while", "do"} -> SeqStmts(s.body)
-                 [] OTHER -> {}
-    IN  {s} \cup sub \cup UNION {StmtsOfExpr(e) : e \in ExprsOfStmt(s)}
-
 IsPredReg(e) == e.k = "reg" /\ e.kind \in {"isa", "explicit"} /\ e.rt = "P"
 
 Attr(body) ==
